@@ -313,6 +313,39 @@ def _collect_if_needed():
         gc.collect()
 
 
+_guard_cells = []
+
+
+def _control_accept_guard():
+    """The lock of ``exclusive`` around ServiceRunner.accept is created at import time (a
+    real lock): a change that makes it *block* would hang the harness for real.  Swap it for
+    a scheduler-aware lock for the duration of the execution (fail-soft: if the decorator is
+    built differently nothing happens)."""
+    try:
+        from cobald.daemon.runners.service import ServiceRunner
+
+        function = ServiceRunner.accept
+        for cell in getattr(function, "__closure__", None) or ():
+            try:
+                content = cell.cell_contents
+            except ValueError:
+                continue
+            if isinstance(content, S.REAL_LOCK_TYPE) and not content.locked():
+                _guard_cells.append((cell, content))
+                cell.cell_contents = S.ALock()
+    except Exception:  # noqa: B902
+        pass
+
+
+def _restore_accept_guard():
+    while _guard_cells:
+        cell, content = _guard_cells.pop()
+        try:
+            cell.cell_contents = content
+        except Exception:  # noqa: B902
+            pass
+
+
 def install(scheduler: S.Scheduler):
     assert S.ACTIVE is None, "one execution at a time"
     _collect_if_needed()
@@ -341,11 +374,13 @@ def install(scheduler: S.Scheduler):
     trio_thread_cache.THREAD_CACHE = trio_thread_cache.ThreadCache()
     threading.excepthook = lambda args: None
     asyncio.set_event_loop_policy(VPolicy())
+    _control_accept_guard()
     S.ACTIVE = scheduler
 
 
 def uninstall():
     S.ACTIVE = None
+    _restore_accept_guard()
     threading.Lock = REAL["threading.Lock"]
     threading._allocate_lock = REAL["threading._allocate_lock"]
     threading.Event = REAL["threading.Event"]
